@@ -20,7 +20,7 @@ COL_NAMES = ["id", "c1", "user_name", "`id`", "`a b`", "`order`", "Amount", "`Âê
 TABLE_NAMES = [("t", None, "t"), ("db.t", "db", "t"), ("`t`", None, "t"), ("`db`.`t`", "db", "t"), ("`db.t`", "db", "t"), ("`my table`", None, "my table"),
                ("T1", None, "T1"), ("`select`", None, "select"), ("db.`t-1`", "db", "t-1"), ("`d b`.t2", "d b", "t2"), ("`Ë°®`", None, "Ë°®")]
 DOTTED_TABLE_NAMES = [("`s`.`a.b`", "s", "a.b"), ("`a.b.c`", None, "a.b.c"), ("s.`x.y`", "s", "x.y")]
-COMMENTS = ["'c'", "'user name'", "'it''s'", "\"dq\"", "'a,b'", "'(x)'", "'a;b'", "'-- not a comment'", "'ÂêçÂâç'", "'a\\'b'", "''", "'COMMENT'", "'a`b'", "'50%'", "'a:b|c~d'", "'tab\\tx'"]
+COMMENTS = ["'c'", "'user name'", "'it''s'", "\"dq\"", "'a,b'", "'(x)'", "'a;b'", "'-- not a comment'", "'ÂêçÂâç'", "'a\\'b'", "''", "'COMMENT'", "'a`b'", "'50%'", "'a:b|c~d'", "'tab\\tx'", "'ratio a==b'", "'=='"]
 ATTRS = ["UNSIGNED", "ZEROFILL", "UNSIGNED ZEROFILL", "CHARACTER SET utf8mb4", "COLLATE utf8mb4_bin", "CHARACTER SET utf8 COLLATE utf8_general_ci", "NULL", "NOT NULL", "AUTO_INCREMENT",
          "DEFAULT NULL", "DEFAULT 0", "DEFAULT '0'", "DEFAULT -1", "DEFAULT 1.5", "DEFAULT 'x y'", "DEFAULT CURRENT_TIMESTAMP", "DEFAULT b'0'", "DEFAULT (1 + 2)", "DEFAULT 1 + 2",
          "ON UPDATE CURRENT_TIMESTAMP", "DEFAULT CURRENT_TIMESTAMP ON UPDATE CURRENT_TIMESTAMP", "GENERATED ALWAYS AS (c1 + 1) VIRTUAL", "GENERATED ALWAYS AS (concat(a, 'x')) STORED",
@@ -310,8 +310,11 @@ def judge(gen_view, calls, a, hmap, catalogued):
         keep = lambda ty, ps: ps if ty.upper() in HIVE_KEEPS else None
         want_h = canon_view((sch, name, [(x[0], x[1], keep(x[1], x[4]), x[3]) for x in prop_cols], [(p[0], p[1], keep(p[1], p[2]), p[3]) for p in code_parts], comment))
         d = first_diff(parse_view(f["rh"]), want_h)
+        eqeq = any("==" in (x or "") for x in [comment] + [c[3] for c in prop_cols] + [p_[3] for p_ in code_parts])
         if d == "table-name" and dotted:
             out.append(("table-name:dotted", "table %r.%r re-parses from the printed DDL as %r" % (sch, name, parse_view(f["rh"])[:2])))
+        elif d and eqeq and "comment" in d:
+            out.append(("hive:comment:eqeq-prepass", "a comment containing == comes back with = from the Hive DDL (whole-text pre-pass, root cause F-C06-2): %s" % f["hive"][:160]))
         elif d == "params" and mapped_by_default_removal and first_diff(parse_view(f["rh"]), canon_view((sch, name, [(x[0], x[1], keep(x[1], x[2]), x[3]) for x in code_cols], [(p[0], p[1], keep(p[1], p[2]), p[3]) for p in code_parts], comment))) is None:
             out.append(("hive:params:removed-by-default", "change_type(remove_param=True) dropped parameters Hive has: %r" % [x[:3] for x in prop_cols if x[1].upper() in HIVE_KEEPS and x[4] is not None]))
         elif d:
